@@ -84,7 +84,11 @@ def c13_session(binary, plan, positions, delays=None):
                 e.send(position_cmd(pos["root"], pos["moves"]))
                 r["position_first"] = True
             n_before = e.n_out()
-            e.send(f"setoption name {name} value {value}")
+            # the same number as a GUI may legitimately write it: zero-padded, or with a plus sign
+            written = (str(value), f"{value:04d}", f"+{value}", str(value), str(value), str(value))[zlib.crc32(f"w/{name}/{value}".encode()) % 6]
+            if written != str(value):
+                r["written_unusually"] = True
+            e.send(f"setoption name {name} value {written}")
             ok = settle(e, 60.0)
             if ok:
                 with e.cv:
@@ -239,6 +243,8 @@ def c13_stage(out, tier, seed):
             for r in res:
                 stats["values"] += 1
                 stats["between" if r.get("between_searches") else "first"] += 1
+                if r.get("written_unusually"):
+                    out.features["values_written_zero_padded_or_signed"] = out.features.get("values_written_zero_padded_or_signed", 0) + 1
                 if r.get("sent_again"):
                     out.features["values_sent_a_second_time"] = out.features.get("values_sent_a_second_time", 0) + 1
                 if r.get("position_first"):
@@ -302,6 +308,10 @@ def c17_batch(binary, games, conv_alive, conv_lock, delays=None):
                 res.append(r)
                 break  # never reuse an engine whose answer went missing
             cmd = position_cmd(g["root"], g["moves"])
+            if g["root"] != "startpos" and g["root"].endswith(" 0 1") and zlib.crc32(g["root"].encode() + g["moves"].encode()) % 2 == 0:
+                # the two counters left out (they default to "0 1"): the same game
+                cmd = cmd.replace(g["root"], g["root"][:-4], 1)
+                r["short_fen"] = True
             e.send(cmd)
             prev_has_replies = bool(g["replies"])
             # what may come between the position command and the moment the position is used: none of it may change it
@@ -420,6 +430,10 @@ def c17_stage(out, tier, seed):
             for r in res:
                 g = r["game"]
                 stats["games"] += 1
+                if r.get("short_fen"):
+                    out.features["games_from_a_four_field_fen"] = out.features.get("games_from_a_four_field_fen", 0) + 1
+                    if g["moves"] and g["root"].split()[1] == "b" and len(g["moves"].split()) % 2 == 1:
+                        out.features["games_from_a_four_field_fen_black_first_odd_length"] = out.features.get("games_from_a_four_field_fen_black_first_odd_length", 0) + 1
                 n = len(g["moves"].split())
                 stats["plies"] += n
                 stats["max_plies"] = max(stats["max_plies"], n)
